@@ -170,3 +170,95 @@ def run_propagate(task):
         r = SystemOfShapes.propagate_lin_cc_judgements(None, m, E)
         outs.append([bool(r[i]) for i in range(len(c["m"]))])
     return {"outcome": "Ok", "outs": outs}
+
+
+def independent_analytic_set(task):
+    """The documented criterion evaluated independently of the toolbox's term splitting: sympy.diff
+    on the spelled text (second derivatives vanish, first derivatives and remainder free of state
+    and time), the two documented exceptions, greatest dependency-closed subset."""
+    import re
+    import sympy
+    ns = {"Symbol": sympy.Symbol, "Integer": sympy.Integer, "Float": sympy.Float, "Rational": sympy.Rational}
+    marker = "__d"
+    entries = []
+    for d in task["indict"]["dynamics"]:
+        lhs, rhs = d["expression"].split("=")
+        lhs = lhs.strip()
+        order = lhs.count("'")
+        entries.append((lhs.replace("'", ""), order, rhs.strip()))
+    names = []
+    for nm, order, _ in entries:
+        names += [nm + marker * k for k in range(order)]
+    syms = {nm: sympy.Symbol(nm) for nm in names}
+    tsym = sympy.Symbol("t")
+    n = len(names)
+    f = {}
+    for nm, order, rhs in entries:
+        for k in range(order - 1):
+            f[nm + marker * k] = syms[nm + marker * (k + 1)]
+        f[nm + marker * (order - 1)] = sympy.parsing.sympy_parser.parse_expr(rhs.replace("'", marker), global_dict=dict(ns), local_dict=dict(syms))
+    state = set(syms.values())
+    A = {}
+    b = {}
+    affine = {}
+    deps = {}
+    for v in names:
+        ex = sympy.expand(f[v])
+        ok = True
+        first = {y: sympy.simplify(sympy.diff(ex, syms[y])) for y in names}
+        for y in names:
+            if (first[y].free_symbols & state) or tsym in first[y].free_symbols:
+                ok = False
+        rem = sympy.simplify(sympy.expand(ex - sum(first[y] * syms[y] for y in names)))
+        if (rem.free_symbols & state) or tsym in rem.free_symbols:
+            ok = False
+        affine[v] = ok
+        A[v] = {y: (first[y] != 0) for y in names}
+        b[v] = (rem != 0) if ok else False
+        deps[v] = set(str(s) for s in (ex.free_symbols & state))
+    # shape-level verdict: all symbols of an entry share the verdict of its defining equation
+    S = {}
+    for nm, order, _ in entries:
+        ok = affine[nm + marker * (order - 1)]
+        for k in range(order):
+            S[nm + marker * k] = ok
+    # strongly connected components of the A pattern
+    reach = {v: {v} for v in names}
+    changed = True
+    while changed:
+        changed = False
+        for v in names:
+            for y in names:
+                if affine[v] and A[v][y] and not reach[y] <= reach[v]:
+                    reach[v] |= reach[y]
+                    changed = True
+                elif (not affine[v]) and y in deps[v] and False:
+                    pass
+    def scc(v):
+        return [w for w in names if w in reach[v] and v in reach[w]]
+    S2 = dict(S)
+    for v in names:
+        if affine[v]:
+            if b[v] and len(scc(v)) > 1:
+                S2[v] = False
+            for y in names:
+                if y != v and A[v][y] and affine[y] and b[y]:
+                    S2[v] = False
+    cur = dict(S2)
+    changed = True
+    while changed:
+        changed = False
+        for v in names:
+            if cur[v] and any(not cur[w] for w in deps[v]):
+                cur[v] = False
+                changed = True
+    return {"names": names, "expected": [cur[v] for v in names], "affine": [affine[v] for v in names]}
+
+
+def run_verdict_indep(task):
+    out = run_verdict(task)
+    try:
+        out["indep"] = independent_analytic_set(task)
+    except Exception as e:   # noqa
+        out["indep"] = {"error": "%s: %s" % (type(e).__name__, str(e)[:200])}
+    return out
